@@ -19,6 +19,7 @@ mod udpstats;
 mod validator;
 mod wsclient;
 mod wsjson;
+mod wsnet;
 mod wsstore;
 
 /// counting allocator: bytes requested so far (C12 measures the growth during a parser call)
@@ -105,6 +106,7 @@ fn main() {
         "rawbytes" => rawbytes::run(&mut out, seed, cases, &replay),
         "udpcodec" => udpcodec::run(&mut out, seed, cases, &replay),
         "wsjson" => wsjson::run(&mut out, seed, cases, &replay),
+        "wsnet" => wsnet::run(&mut out, seed, cases, &replay, arg(&args, "--burst", 40)),
         "wsstore" => wsstore::run(&mut out, seed, cases, maxops, &replay),
         "validator" => validator::run(&mut out, seed, cases, &replay),
         "acl" => acl::run(&mut out, seed, cases, &replay),
